@@ -48,6 +48,18 @@ func gtsCacheDir() (string, error) {
 	return dir, os.MkdirAll(dir, 0755)
 }
 
+// armedCachePath is the cache entry this process is creating, if any.
+var armedCachePath string
+
+// discardArmedCache removes the cache entry created by this process. It is
+// called when the command fails, so that a failed run does not leave an entry
+// that makes a later identical run succeed.
+func discardArmedCache() {
+	if armedCachePath != "" {
+		os.Remove(armedCachePath)
+	}
+}
+
 type ioDelegate struct {
 	infile  *os.File
 	outfile *os.File
@@ -143,6 +155,9 @@ func (d *ioDelegate) TryCache(h hash.Hash, data []byte) (bool, error) {
 			os.Remove(f.Name())
 		}
 		d.cache = f
+		if f != nil && err == nil {
+			armedCachePath = f.Name()
+		}
 		if f != nil {
 			verifTrace("armed", "file", f.Name())
 		}
